@@ -249,6 +249,10 @@ func BuildTx(w *world.World, s TxSpec, b *big.Int) []byte {
 			data = Enc("transfer(address,uint256)", AddrWord(AddrSink), Word(big.NewInt(Erc20TransferAmount)))
 		}
 	default:
+		if f, ok := ExtraKinds[s.Kind]; ok {
+			to, data, value = f(w, s)
+			break
+		}
 		mode, r, ok := s.Kind.ValueRecipient()
 		if !ok {
 			panic("unknown kind " + s.Kind)
@@ -305,6 +309,9 @@ func BuildTx(w *world.World, s TxSpec, b *big.Int) []byte {
 	}
 	return w.EthTx(a, td)
 }
+
+// ExtraKinds: kinds a single check adds to the alphabet (registered from its own file): `to`, call data and value of the tx.
+var ExtraKinds = map[TxKind]func(w *world.World, s TxSpec) (to *common.Address, data []byte, value *big.Int){}
 
 // wrapEthUnchecked is world.WrapEthE without the validation of MsgEthereumTx.FromEthereumTx.
 func wrapEthUnchecked(w *world.World, tx *ethtypes.Transaction, from *world.Acct) []byte {
